@@ -284,11 +284,22 @@ def slice_sort(M, ctx, r):
     for v in vals:
         vv = M.rdd(v) if isinstance(v, (Ref, BoxV)) else v
         if isinstance(vv, (Str, StringV)):
-            p = as_str(M, vv).py()
-            if p is None: raise EncoderGap('sort of symbolic strings')
-            keys.append(p.encode('utf-8', 'surrogateescape'))
+            bs = as_str(M, vv).bytes()
+            pre = []
+            for b in bs:
+                if not isinstance(b, int): break
+                pre.append(b)
+            # strings with a symbolic tail sort by their concrete prefix as long as that decides the order
+            keys.append((bytes(pre), len(pre) < len(bs)))
         elif isinstance(vv, int): keys.append(vv)
         else: raise EncoderGap('sort of ' + type(vv).__name__)
+    if keys and isinstance(keys[0], tuple):
+        for i in range(len(keys)):
+            for j in range(i + 1, len(keys)):
+                a, b = keys[i], keys[j]
+                if (a[1] or b[1]) and (a[0].startswith(b[0]) or b[0].startswith(a[0])):
+                    raise EncoderGap('sort of strings whose order depends on symbolic bytes')
+        keys = [k[0] for k in keys]
     order = sorted(range(len(vals)), key=lambda i: keys[i])
     for c, i in zip(cells, order): c.v = vals[i]
     return unit()
